@@ -17,7 +17,8 @@
      request (ci.pc.k)  code
      branch             WatchedBranch._update_github: gh.getitem(.../git/refs/heads/<branch>)
      pulls              WatchedBranch._update_github: gh.getiter(.../pulls?state=open&base=<branch>) + PR.update_from_gh_json
-     status(n)          PR._update_github: gh.post('/graphql') -> reviewDecision + statusCheckRollup of the LAST commit
+     status(n)          PR._update_github: gh.post('/graphql') -> reviewDecision + ONE PAGE of the statusCheckRollup of
+                        the LAST commit (one request, hence one action, per page)
      batch(n)           PR._update_batch: batch_client.list_batches(... source_sha=<cached head>) + status()
      post(n)            PR._heal -> post_github_status: gh.post(.../statuses/<cached head>)
      build(n)           PR._heal -> _start_build: batch.submit() of a test batch (source, target) = cached shas
@@ -35,6 +36,7 @@ CONSTANTS PRs,        \* pull request numbers, a set of small naturals (all targ
           Reviews,    \* review decisions GitHub may report: APPROVED, REVIEW_REQUIRED, CHANGES_REQUESTED, API_NONE
           Labels,     \* labels people toggle: "WIP", "stacked PR", "prio:high", "do-not-test"
           ExtVals,    \* what the external required check may report: "success", "failure", "pending"
+          PageSize,   \* contexts per page of the status query (the code asks for 10; 1 makes two contexts two pages)
           NotifyKinds,\* which entry points fire: "github" (webhook), "batch" (batch callback), "all" (periodic update)
           Budget      \* number of human events (pushes, reviews, labels, reports) after the arbitrary initial state
 
@@ -61,11 +63,13 @@ Ctx == {"ci", "ext"}                  \* CI's own status context (GITHUB_STATUS_
 MAXRUN == 3                           \* MAX_CONCURRENT_PR_BATCHES
 BatchIds == 1..(Cardinality(PRs) * MaxC * (MaxPush + Cardinality(PRs) + 1) + 4)   \* a constant bound for the quantifier only
 
+CtxSeq == <<"ext", "ci">>             \* the order in which GitHub lists a commit's contexts
 P(k, n) == [k |-> k, n |-> n]
+PG0 == [cur |-> 0, rd |-> "none", acc |-> [x \in Ctx |-> "absent"]]    \* locals of PR._update_github: cursor, review_decision, results
 DefPR == [src |-> 0, lab |-> {}, rev |-> "none", lks |-> [x \in Ctx |-> "absent"],
           bat |-> 0, btgt |-> 0, bs |-> "none", intd |-> "pending"]
 
-InitCi == [pc |-> P("idle", 0), q |-> <<>>, sha |-> 0, prs |-> <<>>, pr |-> [n \in PRs |-> DefPR],
+InitCi == [pc |-> P("idle", 0), q |-> <<>>, pg |-> PG0, sha |-> 0, prs |-> <<>>, pr |-> [n \in PRs |-> DefPR],
            gc |-> TRUE, bc |-> TRUE, sc |-> TRUE, upd |-> FALSE, crash |-> FALSE, nrun |-> 0, cand |-> 0]
 
 Init ==
@@ -257,14 +261,31 @@ FetchPRs ==
 
 RevState(r) == IF r = "APPROVED" THEN "approved" ELSE IF r = "CHANGES_REQUESTED" THEN "changes_requested" ELSE "pending"
 
+\* One PAGE of the status query: PR._update_github asks for the contexts of the last commit PageSize at a time
+\* (`first: 10, after: <cursor>`), one awaited request per page, until hasNextPage is false (or the commit has no
+\* rollup at all).  Every page is answered for the head of THAT moment; the review decision is kept from the first
+\* page; only after the last page are review_state and last_known_github_status replaced.
 FetchStatus(n) ==
   /\ ci.pc = P("status", n)
   /\ LET h == ghHead[n]                                   \* commits(last: 1): the head NOW, whatever CI has cached
-         st == [x \in Ctx |-> IF x = "ci" THEN ghCi[n][h] ELSE ghExt[n][h]]
-         rs == RevState(ghRev[n])
+         val(x) == IF x = "ci" THEN ghCi[n][h] ELSE ghExt[n][h]
+         all == SelectSeq(CtxSeq, LAMBDA x : val(x) # "absent")          \* statusCheckRollup is null when empty
+         cur == ci.pg.cur
+         first == cur = 0
+         upto == IF cur + PageSize < Len(all) THEN cur + PageSize ELSE Len(all)
+         page == IF cur < Len(all) THEN SeqSet(SubSeq(all, cur + 1, upto)) ELSE {}
+         more == Len(all) > cur + PageSize                                \* pageInfo.hasNextPage
+         rd == IF first THEN ghRev[n] ELSE ci.pg.rd
+         acc == [x \in Ctx |-> IF x \in page THEN val(x) ELSE ci.pg.acc[x]]
+         rs == RevState(rd)
          p == ci.pr[n]
-     IN /\ ci' = Run([ci EXCEPT !.pr[n].rev = rs, !.pr[n].lks = st, !.sc = @ \/ rs # p.rev \/ st # p.lks, !.pc = P("statusq", 0)])
-        /\ seenSt' = [seenSt EXCEPT ![n] = [sha |-> h, rev |-> ghRev[n], ext |-> ghExt[n][h]]]
+     IN /\ ci' = IF more THEN [ci EXCEPT !.pg = [cur |-> cur + PageSize, rd |-> rd, acc |-> acc]]
+                 ELSE Run([ci EXCEPT !.pr[n].rev = rs, !.pr[n].lks = acc, !.sc = @ \/ rs # p.rev \/ acc # p.lks,
+                                     !.pg = PG0, !.pc = P("statusq", 0)])
+        /\ seenSt' = [seenSt EXCEPT ![n] =
+                        [sha |-> IF first \/ seenSt[n].sha = h THEN h ELSE 0,      \* 0: pages came from different commits
+                         rev |-> IF first THEN ghRev[n] ELSE seenSt[n].rev,
+                         ext |-> IF "ext" \in page THEN ghExt[n][h] ELSE IF first THEN "absent" ELSE seenSt[n].ext]]
   /\ UNCHANGED <<setup, ghVars, batches, budget, seenT, seenLab, used, nmerged, bad>>
 
 UpdateBatch(n) ==
